@@ -442,6 +442,8 @@ def sym_method(I, recv, name, args, kwargs):
         if name == "hex" or name == "decode" or name == "split" or name == "join":
             raise Unsupported(f"{k}.{name} on symbolic data")
         raise Unsupported(f"{k}.{name} on symbolic data")
+    if isinstance(recv, SInt) and name == "key" and I.contract is not None and getattr(I.contract, "elements_are_keys", False):
+        return recv  # abstraction declared by the contract: an element is represented by its key
     if isinstance(recv, (int, SInt)):
         if name == "to_bytes":
             length = args[0] if args else kwargs.get("length", 1)
@@ -891,9 +893,24 @@ def m_object_setattr(I, args, kwargs):
     raise Unsupported("object.__setattr__")
 
 
+def m_time(I, args, kwargs):
+    """time.time(): an external clock.  Each call returns a fresh real, not smaller than the
+    previous reading (A-float); the k-th reading is visible to clauses as ghost time_k."""
+    p = I.path
+    k = len(I.ghost_clock) + 1
+    t = z3.Real(p.fresh_name(f"time_{k}"))
+    if I.ghost_clock:
+        p.assume(t >= I.ghost_clock[-1])
+    I.ghost_clock.append(t)
+    I.ghost[f"time_{k}"] = SReal(t)
+    return SReal(t)
+
+
+import time as _time
 import typing
 
 BUILTIN_MODELS = {
+    _time.time: m_time,
     struct.pack: m_struct_pack,
     struct.unpack: m_struct_unpack,
     struct.calcsize: m_struct_calcsize,
@@ -1173,17 +1190,29 @@ def as_lazy_forall(I, conj, frame):
     snap = snapshot_locals(frame)
     base = itp.Frame(frame.fn, snap, frame.globals, frame.info)
 
-    def q(t):
-        sv, st = I.spec, getattr(I, "inst_term", None)
+    def q(t, t2=None):
+        sv, st, sd = I.spec, getattr(I, "inst_term", None), getattr(I, "inst_depth", 0)
         I.spec = -1
-        I.inst_term = t
+        I.inst_term = t if t2 is None else (t, t2)
+        I.inst_depth = 0
         try:
             return I.as_bool_expr(I.eval(conj, base))
         finally:
             I.spec = sv
             I.inst_term = st
+            I.inst_depth = sd
 
+    q.arity = 2 if _quant_depth(conj) >= 2 else 1
     return q
+
+
+def _quant_depth(node):
+    best = 0
+    for ch in ast.iter_child_nodes(node):
+        best = max(best, _quant_depth(ch))
+    if isinstance(node, ast.Call) and isinstance(node.func, ast.Name) and node.func.id in ("all", "any") and node.args and isinstance(node.args[0], ast.GeneratorExp):
+        return best + 1
+    return best
 
 
 def spec_call(I, e, frame):
@@ -1217,8 +1246,10 @@ def spec_call(I, e, frame):
                 return SBool(simp(z3.Implies(z3.And(*guard), body)))
             return SBool(simp(z3.And(*(guard + [body]))))
         # instantiate: at the single closure term (lazy hypotheses) or over the pool
-        if getattr(I, "inst_term", None) is not None:
-            terms = [I.inst_term]
+        it = getattr(I, "inst_term", None)
+        depth = getattr(I, "inst_depth", 0)
+        if it is not None:
+            terms = [it[min(depth, len(it) - 1)]] if isinstance(it, tuple) else [it]
         else:
             terms = list(I.path.pool)
             f = frame
@@ -1234,11 +1265,15 @@ def spec_call(I, e, frame):
                         extra.append(d)
             terms += extra + [z3.IntVal(0), simp(hi - 1), lo]
         outs = []
-        for t in terms:
-            fr = itp.Frame(frame.fn, {var: SInt(t)}, frame.globals, frame.info, parent=frame)
-            guard = [t >= lo, t < hi] + [I.as_bool_expr(I.eval(c, fr)) for c in ifs]
-            body = I.as_bool_expr(I.eval(elt, fr))
-            outs.append(z3.Implies(z3.And(*guard), body) if which == "all" else z3.And(*(guard + [body])))
+        I.inst_depth = depth + 1
+        try:
+            for t in terms:
+                fr = itp.Frame(frame.fn, {var: SInt(t)}, frame.globals, frame.info, parent=frame)
+                guard = [t >= lo, t < hi] + [I.as_bool_expr(I.eval(c, fr)) for c in ifs]
+                body = I.as_bool_expr(I.eval(elt, fr))
+                outs.append(z3.Implies(z3.And(*guard), body) if which == "all" else z3.And(*(guard + [body])))
+        finally:
+            I.inst_depth = depth
         return SBool(simp(z3.And(*outs) if which == "all" else z3.Or(*outs)))
     if isinstance(e.func, ast.Name):
         nm = e.func.id
